@@ -25,6 +25,15 @@ def run_sharded(driver, chk, w, extra=(), profile="release"):
     return trace
 
 
+def sim_stats(r):
+    """-simulate prints its own statistics line; fill the state counts from it"""
+    import re
+    m = re.search(r"The number of states generated: (\d+)", r["out"])
+    if m and not r["generated"]:
+        r["generated"] = r["distinct"] = int(m.group(1))
+    return r
+
+
 def model_part(chk, thorough):
     """(M) SieveProto with the AbortFlips fault action: AbortBounded."""
     cfgs = ["MC_SieveProto_abort.cfg", "MC_SieveProto_abort_live.cfg", "MC_SieveProto_mpqs.cfg", "MC_SieveProto_seq.cfg"]
@@ -33,8 +42,8 @@ def model_part(chk, thorough):
             chk.add_mc(r)
     if thorough:
         r = core.model_check("sieveproto/SieveProto.tla", "MC_SieveProto_w3.cfg", workers=4, timeout=1500,
-                             extra=["-simulate", "num=20000", "-depth", "400"])
-        chk.add_mc(r)
+                             extra=["-simulate", "num=5000", "-depth", "400"])
+        chk.add_mc(sim_stats(r))
     chk.notes.append({"model": "SieveProto with the AbortFlips fault action (2 workers x 2 tasks x 2 polynomials; MPQS flavour; sequential loop; "
                       "thorough: 3 workers by simulation): AbortBounded = a worker whose poll returned true starts no unit, no worker starts "
                       "more than one unit after the flip, an abort seen by any worker is seen by main's final check so the partial relation "
